@@ -74,3 +74,67 @@ package selftest
 
 //@ func BadByteAlias
 //@   ensures len(b) > 0 ==> result == 7
+
+//@ pure kSame(a map[H4]KCfg, b map[H4]KCfg) bool = forall h H4 :: has(a, h) == has(b, h) && (has(a, h) ==> a[h].Name == b[h].Name)
+//@ pure kProd(m *KMgr) bool = !isnil(m.cache) && (!isnil(m.tcp) ==> !isnil(m.tcp.ulm) && kSame(m.tcp.ulm, m.cache))
+//@ pure kUsers(m *KMgr) bool = !isnil(m.users) && !isnil(m.cache) && (forall u string :: has(m.users, u) ==> !isnil(m.users[u]) && has(m.cache, m.users[u].hash) && m.cache[m.users[u].hash].Name == u)
+//@ pure kHashes(m *KMgr) bool = forall h H4 :: has(m.cache, h) ==> has(m.users, m.cache[h].Name) && m.users[m.cache[h].Name].hash == h
+
+//@ func (*KMgr).GoodMirrorAdd
+//@   requires !isnil(m) && kProd(m)
+//@   ensures kProd(m)
+
+//@ func (*KMgr).BadMirrorAdd
+//@   requires !isnil(m) && kProd(m)
+//@   ensures kProd(m)
+
+//@ func (*KMgr).GoodBijAdd
+//@   requires !isnil(m) && kUsers(m) && kHashes(m)
+//@   ensures kUsers(m)
+//@   ensures kHashes(m)
+
+//@ func (*KMgr).BadBijAdd
+//@   requires !isnil(m) && kUsers(m) && kHashes(m)
+//@   ensures kUsers(m)
+//@   ensures kHashes(m)
+
+//@ func (*KMgr).GoodBijDel
+//@   requires !isnil(m) && kUsers(m) && kHashes(m)
+//@   ensures kUsers(m)
+//@   ensures kHashes(m)
+
+//@ func BadStructMapWrite
+//@   requires !isnil(m)
+//@   ensures result == old(m[k].Name)
+
+//@ func GoodStructMapWrite
+//@   requires !isnil(m)
+//@   ensures result == "x" && m[k].K == 3
+
+//@ func useTime
+//@   nonblocking
+//@   modifies nothing
+
+//@ func GoodClock
+//@   callsite useTime: arg0 == clocknow()
+
+//@ func BadClock
+//@   callsite useTime: arg0 == clocknow()
+
+//@ func double
+//@   modifies nothing
+//@   ensures result == 2 * x
+
+//@ func triple
+//@   modifies nothing
+//@   ensures result == 3 * x
+
+//@ func (*FnHolder).GoodDyn
+//@   requires x >= 0 && x < 1000 && (h.f == double || h.f == triple)
+//@   dyncall double, triple
+//@   ensures result >= 2 * x
+
+//@ func (*FnHolder).BadDyn
+//@   requires x >= 0 && x < 1000
+//@   dyncall double, triple
+//@   ensures result >= 2 * x
